@@ -100,4 +100,13 @@ theorem pause_persists_before_answer :
     doPauseChannel = ["return", "return", "call:UnPause", "call:Pause", "return", "call:Lock",
       "call:PersistMetadata", "call:Unlock", "return"] := ⟨rfl, rfl⟩
 
+/-- `NSQD.Exit`: listeners closed (`Step.exitBegin`), then under the nsqd lock `PersistMetadata` (`HKind.exit`) and every
+topic closed (flushed), the background goroutines joined, and only then the data-path flock released
+(`Step.exitEnd`): the data path is "in use" until Exit has finished writing. -/
+theorem exit_releases_dirlock_last :
+    nsqdExit = ["call:atomic.CompareAndSwapInt32", "call:n.tcpListener.Close", "call:n.tcpServer.Close",
+      "call:n.httpListener.Close", "call:n.httpsListener.Close", "call:n.Lock", "call:n.PersistMetadata",
+      "call:topic.Close", "call:n.Unlock", "call:close", "call:n.waitGroup.Wait", "call:n.dl.Unlock",
+      "call:n.ctxCancel"] := rfl
+
 end Nsq.Tie.Meta
